@@ -193,6 +193,44 @@ func ruleProofFraming(w *World, r *Run, rule string) {
 	if nRefusing == 0 {
 		r.Undecided(rule, rn, "", "no refusing path of the reader found")
 	}
+	// the reader must not strip a *set* of characters that contains the writer's terminator from its input: an empty hash
+	// is written as a bare terminator, so TrimRight/Trim/TrimSpace/Fields swallow trailing (or all) empty elements and the
+	// list reads back shorter than it was written. Cutting exactly one terminator (TrimSuffix, the slice of Split) is fine.
+	term := ""
+	for _, tp := range tmpls {
+		if tp.k == 1 && len(tp.pcs) == 2 && tp.pcs[1].k == "lit" {
+			term = tp.pcs[1].lit
+		}
+	}
+	key := "Proof.Unmarshal | the input is not trimmed by a character set containing the writer's terminator"
+	bad := false
+	for _, s := range rsums {
+		for _, ev := range s.Events {
+			if ev.Kind != "call" || len(ev.Args) == 0 || ev.Args[0] == nil || !mentions(ev.Args[0], data) {
+				continue
+			}
+			strips := false
+			switch ev.Callee {
+			case "strings.TrimSpace", "bytes.TrimSpace", "strings.Fields", "bytes.Fields":
+				strips = term != "" && strings.TrimSpace(term) == ""
+			case "strings.TrimRight", "strings.TrimLeft", "strings.Trim", "bytes.TrimRight", "bytes.TrimLeft", "bytes.Trim":
+				if len(ev.Args) == 2 {
+					if cut, ok := constStr(ev.Args[1]); ok {
+						strips = term != "" && strings.ContainsAny(term, cut)
+					} else {
+						strips = true
+					}
+				}
+			}
+			if strips && !bad {
+				bad = true
+				r.Fail(rule, key, w.pos(ev.Pos), short(ev.Callee)+" removes every trailing (or leading) terminator from the reader's input, but the writer encodes an empty hash as a bare terminator: a list ending in empty hashes reads back shorter than it was written")
+			}
+		}
+	}
+	if !bad {
+		r.Pass(rule, key, "", "")
+	}
 }
 
 func templateString(pcs []piece) string {
